@@ -27,7 +27,7 @@ ASSUMPTIONS = [
     "the plug-in namespace is the seam the property prescribes; the repository ships no real cipher",
 ]
 PROBES = ["verifstream2", "slow_agent_time_differs", "set_with_marker", "context_name", "md5", "sha1", "walk_many_exchanges",
-          "priv_pass_differs_from_auth_pass", "configured_context_engine", "key_rotation", "hash_rotation", "agent_clock_ahead"]
+          "priv_pass_differs_from_auth_pass", "configured_context_engine", "key_rotation", "hash_rotation", "agent_clock_ahead", "agent_clock_slow_response_older_than_estimate"]
 shrink_lists: List[tuple] = []
 OPS = ["get", "multiget", "getnext", "set", "multiset", "bulkget", "walk"]
 BASE = (1, 3, 6, 1, 2, 1, 7)
@@ -55,7 +55,9 @@ def plan_for(tier: str, seed: int, i: int) -> dict:
             "rotate": rng.choice([None, None, "priv_pass", "hash", "both"]),
             "priv_pass2": gen.gen_bytes(rng, rng.choice([1, 9, 40])), "ctx_echo": rng.random() < 0.3,
             # the agent's clock runs ahead of what the client can estimate (forward step after discovery, inside the window)
-            "skew_s": rng.choice([0, 0, 1, 7, 100])}
+            "skew_s": rng.choice([0, 0, 1, 7, 100]),
+            # ... or behind it: the agent's clock drifts (runs slower than the client's monotonic estimate)
+            "rate": rng.choice([1.0, 1.0, 0.75, 0.5])}
 
 
 def simplify(plan: dict):
@@ -65,6 +67,8 @@ def simplify(plan: dict):
         p = dict(plan); p["engine_cfg"] = b""; yield p
     if plan.get("skew_s"):
         p = dict(plan); p["skew_s"] = 0; yield p
+    if plan.get("rate", 1.0) != 1.0:
+        p = dict(plan); p["rate"] = 1.0; yield p
     if plan["delay_s"]:
         p = dict(plan); p["delay_s"] = 0; yield p
     if plan["context_name"]:
@@ -82,6 +86,7 @@ def execute(plan: dict) -> dict:
     agent = w.add_agent(agent_for(proto, mib, engine_id=plan["engine_id"], boots=plan["boots"], time0=plan["time0"]))
     agent.delay_for = lambda req: 0 if req.get("discovery") else plan["delay_s"] * 1024
     agent.report_ctx_echo = bool(plan.get("ctx_echo"))
+    agent.rate = float(plan.get("rate", 1.0))
     if plan.get("skew_s"):
         def hook_v3(req: dict, f: dict) -> dict:
             if req.get("discovery") and not getattr(agent, "_stepped", False):
@@ -114,7 +119,7 @@ def execute(plan: dict) -> dict:
         if rot in ("hash", "both"):
             p2["auth"] = "sha1" if proto["auth"] == "md5" else "md5"
         phases.append(p2)
-    time_differs = False
+    time_differs = older = False
     n_enc = n_dec = 0
     excname = None
     for ph, proto in enumerate(phases):
@@ -200,6 +205,8 @@ def execute(plan: dict) -> dict:
                 resp_by_salt[m["sec"]["priv"]] = m
                 if m["sec"]["time"] != r["msg"]["sec"]["time"]:
                     time_differs = True
+                if m["sec"]["time"] < r["msg"]["sec"]["time"]:
+                    older = True
         for c in decs:
             m = resp_by_salt.get(c["salt"])
             if m is None:
@@ -241,6 +248,7 @@ def execute(plan: dict) -> dict:
         "configured_context_engine": int(bool(plan.get("engine_cfg"))),
         "key_rotation": int(plan.get("rotate") in ("priv_pass", "both")), "hash_rotation": int(plan.get("rotate") in ("hash", "both")),
         "agent_clock_ahead": int(bool(plan.get("skew_s"))),
+        "agent_clock_slow_response_older_than_estimate": int(older),
     }
     counters = dict(w.net.counters)
     counters["encrypt_calls"] = n_enc
